@@ -35,8 +35,12 @@ func syncPlan(prop, tier string, seed uint64) (runs []syncRun, crashIsViolation 
 			eq.Edit2 = true
 			eq.Closure = false
 			runs = append(runs, syncRun{"2 replicas, equal stamps, two-author commits", eq, 5, 60 * time.Second})
+			x := syncw.Params{Replicas: 2, Oracles: "c01", Seed: seed, Peers: true, Split: true, NoRemote: true, OneEdit: true}
+			runs = append(runs, syncRun{"2 replicas exchanging directly (peer remotes, split fetch/merge): cross merges", x, 7, 60 * time.Second})
 		} else {
 			runs = []syncRun{{"2 replicas, atomic pull", base, 8, 15 * time.Minute}}
+			x := syncw.Params{Replicas: 2, Oracles: "c01", Seed: seed, Peers: true, Split: true, NoRemote: true}
+			runs = append(runs, syncRun{"2 replicas exchanging directly (peer remotes, split fetch/merge): cross merges", x, 9, 10 * time.Minute})
 			p := base
 			p.Split, p.Peers, p.Edit2 = true, true, true
 			runs = append(runs, syncRun{"2 replicas, split fetch/merge, peer remotes, two-author commits", p, 6, 10 * time.Minute})
